@@ -176,6 +176,31 @@ def run_unpack_case(case):
         if all(len(v) >= 1 for v in vals):
             wantd = [('id', 'v', 'z')] + [(i + 1, 'w%d' % x, 51 + i) for i, v in enumerate(vals) for x in v]
             eq('splitdown', [tuple(r) for r in etl.splitdown(ts, 'v', ' ')], wantd)
+        # the `flags` argument: the same pattern string first without and then with re.I (and the other way round)
+        # must each behave like Python's re with exactly those flags
+        import re as _re
+        tf = [['id', 'v', 'z']] + [[i + 1, u'Xa%dxB%dXc' % (i, i), 51 + i] for i in range(max(1, len(vals)))]
+        for order in ((0, _re.I), (_re.I, 0)):
+            for fl in order:
+                kwf = {'flags': fl} if fl else {}
+                wsplit = [('id', 'z', 'p', 'q', 'r')] + [(r[0], r[2]) + tuple((_re.split(u'x', r[1], flags=fl) + [None, None, None])[:3]) for r in tf[1:]]
+                got = [tuple(r) for r in etl.split(tf, 'v', u'x', ['p', 'q', 'r'], **kwf)]
+                eq('split(pattern x, flags=%r) after the other flags' % fl, [tuple((list(r) + [None] * 5)[:5]) for r in got], wsplit)
+                wdown = [('id', 'v', 'z')] + [(r[0], piece, r[2]) for r in tf[1:] for piece in _re.split(u'x', r[1], flags=fl)]
+                eq('splitdown(pattern x, flags=%r)' % fl, [tuple(r) for r in etl.splitdown(tf, 'v', u'x', **kwf)], wdown)
+                wsub = [('id', 'v', 'z')] + [(r[0], _re.sub(u'x', u'_', r[1], flags=fl), r[2]) for r in tf[1:]]
+                eq('sub(pattern x, flags=%r)' % fl, [tuple(r) for r in etl.sub(tf, 'v', u'x', u'_', **kwf)], wsub)
+                m = [_re.search(u'x(a\\d+)', r[1], flags=fl) for r in tf[1:]]
+                if all(m):
+                    wcap = [('id', 'z', 'g')] + [(r[0], r[2], mm.group(1)) for r, mm in zip(tf[1:], m)]
+                    eq('capture(flags=%r)' % fl, [tuple(r) for r in etl.capture(tf, 'v', u'x(a\\d+)', ['g'], **kwf)], wcap)
+                wsearch = [('id', 'v', 'z')] + [tuple(r) for r in tf[1:] if _re.search(u'xa', r[1], flags=fl)]
+                eq('search(flags=%r)' % fl, [tuple(r) for r in etl.search(tf, 'v', u'xa', **kwf)], wsearch)
+        # unpackdict without keys=: keys spelt like fields of the table (even like the unpacked field) are unpacked too
+        tk = [['id', 'v', 'z']] + [[i + 1, {'v': 10 + i, 'id2': 20 + i, 'p': 30 + i}, 51 + i] for i in range(max(1, len(vals)))]
+        got = [tuple(r) for r in etl.unpackdict(tk, 'v')]
+        eq('unpackdict(sampled keys incl. one named like the unpacked field)', got,
+           [('id', 'z', 'id2', 'p', 'v')] + [(r[0], r[2], r[1]['id2'], r[1]['p'], r[1]['v']) for r in tk[1:]])
     except Exception as e:
         problems.append('unpack family raised %r' % (e,))
     return problems
